@@ -107,17 +107,6 @@ theorem no_unverified_bytes_cached_for_verified_layer_partial (cfg : Cfg) (tb : 
   exact ⟨fun ke hke => ⟨h1 ke hke, hi.good ke hke (h1 ke hke)⟩,
          fun p hp => ⟨h2 p hp, hi.pgood p hp (h2 p hp)⟩⟩
 
-/-- `FaithfulRun` of a concatenated history. -/
-theorem faithfulRun_append (s : St β δ) (ops1 ops2 : List (Op β δ)) :
-    FaithfulRun H parse s (ops1 ++ ops2) ↔
-      FaithfulRun H parse s ops1 ∧ FaithfulRun H parse (run H parse s ops1) ops2 := by
-  induction ops1 generalizing s with
-  | nil => simp [FaithfulRun, run]
-  | cons o rest ih =>
-    simp only [List.cons_append, FaithfulRun, run]
-    rw [ih]
-    exact ⟨fun ⟨a, b, c⟩ => ⟨⟨a, b⟩, c⟩, fun ⟨⟨a, b⟩, c⟩ => ⟨a, b, c⟩⟩
-
 /-- After a successful mount with TOC digest `D` (history `ops1` before it is arbitrary), for every
 continuation `ops2` on the same layer object and every further operation `o`: whatever `o` returns
 as file data consists of chunks whose bytes hash to the digest the TOC records for that chunk; and
@@ -346,11 +335,6 @@ The memory metadata store's `Clone` re-parses the TOC from the section reader ha
 a blob whose chunk 0 has bytes `5` and whose (re-parsed, unverified) TOC pins digest `5` for it. -/
 def exCloneOps : List (Op Nat Nat) := [.prefetchBeginWith 0 (some 5) (some 5), .prefetchCommit 0]
 
-theorem exCloneOps_noEvict : NoEvict exCloneOps := by
-  intro o ho
-  simp only [exCloneOps, List.mem_cons, List.not_mem_nil, or_false] at ho
-  rcases ho with rfl | rfl <;> rfl
-
 /-- On the current code a VERIFIED layer serves, from its chunk cache, bytes that do not match the
 digest its TOC records: mount with the right digest, clone-based prefetch of a forged chunk with a
 forged TOC, read. -/
@@ -379,7 +363,12 @@ theorem reads_verified_full_false : ¬ reads_verified_full := by
   intro h
   have ht : (reach id (fun _ => exToc) {} 1 []).toc = exToc := rfl
   have h1 := h Nat Nat id (fun _ => exToc) {} 1 [] ⟨some (some 1), false⟩ 1 exCloneOps
-    (.read [{ c := 0, reply := none }]) [(0, 5)] rfl rfl rfl exCloneOps_noEvict rfl
+    (.read [{ c := 0, reply := none }]) [(0, 5)] rfl rfl rfl
+    (by
+      intro o ho
+      simp only [exCloneOps, List.mem_cons, List.not_mem_nil, or_false] at ho
+      rcases ho with rfl | rfl <;> rfl)
+    rfl
   have h2 := h1 (0, 5) (List.mem_cons_self ..)
   rw [ht] at h2
   exact absurd h2 (by decide)
